@@ -59,6 +59,7 @@ FLOORS = {'ast-changed': 0.3, 'tag:copy-redef': 0.05, 'tag:ctx-const': 0.05, 'ta
 
 N_INPUTS = 5
 ITER_CAP = 64
+N_TMPL_SHARDS = 6
 
 PASS = {'F': ConstFold, 'P': CopyPropagate, 'D': DeadCodeEliminate}
 PASS_NAME = {'F': 'constfold', 'P': 'copyprop', 'D': 'dce'}
@@ -275,6 +276,8 @@ class _Facts(DefaultVisitor):
         self.user_calls = 0
         self.copies = []            # (target, source)
         self.bindings = {}          # name -> number of binding sites
+        self.for_targets = set()
+        self.const_while = 0        # while statements whose condition is a literal boolean
         self.stmts = 0
 
     def bind(self, target):
@@ -303,8 +306,14 @@ class _Facts(DefaultVisitor):
         self.indexed_assign += 1
         super()._visit_indexed_assign(stmt, ctx)
 
+    def _visit_while(self, stmt, ctx):
+        if isinstance(stmt.cond, fpyast.BoolVal):
+            self.const_while += 1
+        super()._visit_while(stmt, ctx)
+
     def _visit_for(self, stmt, ctx):
         self.bind(stmt.target)
+        self.for_targets |= {str(n) for n in stmt.target.names()}
         super()._visit_for(stmt, ctx)
 
 
@@ -317,8 +326,25 @@ def facts(ast):
     return f
 
 
+def _dce_call_detail(before):
+    """Why did DCE think a call statement was removable?  (fpy2's own def-use analysis, used for naming only.)"""
+    try:
+        from fpy2.analysis import AssignDef, DefineUse, PhiDef
+        du = DefineUse.analyze(before)
+        kinds = set()
+        for d in du.defs:
+            if isinstance(d, AssignDef) and isinstance(d.site, fpyast.Assign) and not du.uses[d]:
+                f = _Facts()
+                f._visit_expr(d.site.expr, None)
+                if f.user_calls:
+                    kinds.add('via-unused-phi' if any(isinstance(x, PhiDef) for x in du.successors[d]) else 'deemed-pure')
+        return '+'.join(sorted(kinds)) or 'unknown'
+    except Exception:
+        return 'unknown'
+
+
 def root_cause(code, before, after, exp, got):
-    """Bucket name for a failure localised to one application of pass `code` (before -> after)."""
+    """Bucket name (root-cause signature) for a failure localised to one application of pass `code` (before -> after)."""
     fb = facts(before)
     base = PASS_NAME[code[0]]
     if got[0] == 'raise':
@@ -327,20 +353,27 @@ def root_cause(code, before, after, exp, got):
         sym = 'zero-sign'
     else:
         sym = 'wrong-value'
+    if code[0] in 'PF' and any(fb.bindings.get(t, 0) > 1 for t in fb.for_targets):
+        # a loop target re-binding an existing name: the reaching-definitions analysis both passes rely on
+        return f'{base}/for-target-rebound'
     if code[0] == 'P':
         redef = any(fb.bindings.get(x, 0) > 1 or fb.bindings.get(y, 0) > 1 for y, x in fb.copies)
-        return f'copyprop/source-redefined/{sym}' if redef else f'copyprop/other/{sym}'
+        return 'copyprop/source-redefined' if redef else f'copyprop/other/{sym}'
     if code[0] == 'F':
+        if facts(after).const_while > fb.const_while:
+            return 'constfold/while-condition-folded'
         if sym == 'zero-sign':
             return 'constfold/zero-sign'
         if fb.indexed_assign or fb.user_calls:
-            return f'constfold/mutable-list/{sym}'
+            return 'constfold/mutable-list'
         return f'constfold/other/{sym}'
     fa = facts(after)
     if fa.user_calls < fb.user_calls:
-        return f'dce/call-removed/{sym}'
+        return 'dce/call-removed:' + _dce_call_detail(before)
     if fa.indexed_assign < fb.indexed_assign:
-        return f'dce/store-removed/{sym}'
+        return 'dce/store-removed'
+    if fa.stmts < fb.stmts and sym != 'zero-sign':
+        return 'dce/live-assignment-removed'
     return f'dce/other/{sym}'
 
 
@@ -613,7 +646,17 @@ def main(a0, a1):
             r = r {op2} a1
         s = a1 if (a * 3 == {lit}) else a0
         assert a * 3 <= {lit} or a * 3 > {lit}
-    return (r, s)
+        if a < a + 1:
+            t = r {op} 1
+        else:
+            t = r {op2} 2
+        if a > a + 1:
+            u = t {op} 3
+        else:
+            u = t {op2} 4
+        if 1 < 2:
+            u = u * 2
+    return (r, s, t, u)
 ''', ['R', 'R']),
     ('const-loop-carried', '''
 @fp.fpy
@@ -629,6 +672,19 @@ def main(a0, a1):
             j = j {op} {lit2}
     return (k, m, j, k {op2} a1)
 ''', ['L2', 'R']),
+    ('const-while-nested', '''
+@fp.fpy
+def main(a0, a1):
+    with fp.FP64:
+        k = 0
+        acc = a1
+        for i in range({n}):
+            while k > 0:
+                k = k - k
+                acc = acc {op} a0
+            k = 2
+    return acc
+''', ['R', 'R']),
     ('dead-stores', '''
 @fp.fpy
 def h0(p0):
@@ -802,10 +858,10 @@ def template_cases(seed, tier):
 
 def shards(tier, seed):
     n_shards = 128 if tier == 'thorough' else 48
-    per = 400 if tier == 'thorough' else 100
+    per = 250 if tier == 'thorough' else 100
     out = [('gen', i, per, seed, tier) for i in range(n_shards)]
     out += [('base', i, per // 4, seed, tier) for i in range(8)]
-    out.append(('tmpl', seed, tier))
+    out += [('tmpl', k, seed, tier) for k in range(N_TMPL_SHARDS)]
     return out
 
 
@@ -813,9 +869,11 @@ def run_shard(shard):
     res = Result()
     kind = shard[0]
     if kind == 'tmpl':
-        _, seed, tier = shard
+        _, k, seed, tier = shard
         tids = all_transforms()
-        for name, src, inputs in template_cases(seed, tier):
+        for n, (name, src, inputs) in enumerate(template_cases(seed, tier)):
+            if n % N_TMPL_SHARDS != k:
+                continue
             check_program(res, src, 'main', inputs, tids, {'template:' + name}, 'template:' + name)
         return res
     _, i, per, seed, tier = shard
